@@ -138,6 +138,24 @@ func alphaCmd(args []string) error {
 						aout = int(o.A)
 					}
 				}
+				// any pixel: one channel (each in turn) or all of them ABOVE alpha - not a valid premultiplied
+				// pixel, so its colour is not judged (PremultValid speaks of valid pixels); its alpha is
+				if a > 0 && a < 65535 {
+					for _, over := range []int{a + 1, (a + 65536) / 2, 65535} {
+						for pos := 0; pos < 4; pos++ {
+							ch := [3]int{a / 2, a, 0}
+							if pos < 3 {
+								ch[pos] = over
+							} else {
+								ch = [3]int{over, over, over}
+							}
+							o := f(color.RGBA64{R: uint16(ch[0]), G: uint16(ch[1]), B: uint16(ch[2]), A: uint16(a)})
+							if int(o.A) != aout {
+								aout = -2
+							}
+						}
+					}
+				}
 				sink.put(map[string]interface{}{"kind": "alpha", "space": sp.name, "op": op, "a": a, "aout": aout, "pairs": pairs})
 			}
 			// constructor alpha is exactly A/65535
